@@ -381,6 +381,11 @@ func shorthandCases(ecoName string, b base3) []shCase {
 				add(s+"."+wc, "composer-wildcard-minor", "["+j3(x, y, 0)+","+j3(x, y+1, 0)+")", "stable-only", "must")
 			}
 			add(s+" - "+fmt.Sprintf("%d.%d", x+1, y), "composer-hyphen-partial", "["+lo+","+j3(x+1, y+1, 0)+")", "stable-only", "must")
+			// an upper bound with a patch-level suffix is taken as written (inclusive), however few components it has
+			for _, sfx := range []string{"-patch1", "pl3", "-patch"} {
+				hi := fmt.Sprintf("%d.%d", x+1, y) + sfx
+				add(s+" - "+hi, "composer-hyphen-suffixed-upper", "["+lo+","+hi+"]", "stable-only", "must")
+			}
 		case 3:
 			add("~"+s, "composer-tilde-3", "["+lo+","+j3(x, y+1, 0)+")", "stable-only", "must")
 			add(s+" - "+j3(x+1, y, z+2), "composer-hyphen-full", "["+lo+","+j3(x+1, y, z+2)+"]", "stable-only", "must")
